@@ -88,6 +88,16 @@ theorem skipWs_spec (bs : List Nat) : ∀ (fuel pos : Nat), bs.length - pos ≤ 
         rw [hc] at hd; injection hd with hd; subst hd
         rw [← isWs_eq]; simpa using hw
 
+/-- a byte that is not whitespace stops `skipWs` at once -/
+theorem skipWs_fix {bs : List Nat} {p d : Nat} (hd : bs[p]? = some d) (hs : isSpace d = false) (fuel : Nat) :
+    Json.skipWs bs fuel p = p := by
+  cases fuel with
+  | zero => rfl
+  | succ fuel =>
+    unfold Json.skipWs
+    rw [hd]
+    simp only [isWs_eq, hs, Bool.false_eq_true, if_false]
+
 theorem isSpace_x : isSpace 0x78 = false := by decide
 
 /-- the first non-space byte of the padded buffer from `pos ≤ len` on is the spec's `skipWs` position; it is the
@@ -392,5 +402,91 @@ def NumberCorrectOn (bs : List Nat) : Prop :=
     ∃ r, NumAgrees start bs.length (Number.scanNumber bs start) r ∧
       ∀ pad buf, pad.length = 61 → (∀ x ∈ pad, x < 256) → BufAt bs pad buf start →
         numOut (Sonic.Model.Number.parseNumber buf bs.length start) = r
+
+/-! ## numbers: the contract that is true of every text (`NumberOK`)
+
+`NumberCorrectOn` asks for agreement with the reference scanner at *every* position that holds `-` or a digit — also
+inside string literals — and is therefore false for valid documents such as `["1.5.3"]`: `AtofNative` is handed the
+rest of the buffer and `SetDecimal` swallows a second `.` (`Props/C04.lean`: `C04_native_guard_needed`), so at the
+position of `1.5` in `1.5.3` the model's *value* differs from the reference's.  Such a position is **doomed**: the
+byte right after the number token is `.` or a digit, which can follow no JSON value, so if a value starts there both
+the reference reader and the parser reject the text (the parser at the next token).  `NumberOK` allows, at a doomed
+position, any value (ending at the end of the token) or a parse error code — but still independent of the padding. -/
+
+/-- the byte at index `next` is `.` or a digit: it can follow no JSON value -/
+def Doomed (bs : List Nat) (next : Nat) : Prop :=
+  ∃ d, bs[next]? = some d ∧ (d = 0x2E ∨ Number.isDigit d = true)
+
+/-- what `parseNumber` may answer at a doomed position whose token has `tlen` bytes: some value ending at the end of
+    the token, or one of the two parse error codes of `parseNumber` -/
+def NumDoomedOut (start tlen : Nat) : NumOut → Prop
+  | .ok _ next => next = start + tlen
+  | .err code _ => code = Sonic.Model.Number.errInfinity ∨ code = Sonic.Model.Number.errInvalidChar
+
+/-- **The contract of `parseNumber` that the parser proofs need** (follows from `NumberCorrectOn`, and — unlike it —
+    from the facts proved about the number model for every text whose written exponents are below 100000:
+    `Proofs/ParseNumberOK.lean`): at every position that holds `-` or a digit there is an outcome `r`, the same for
+    all paddings and all contents of the buffer below the position, which either agrees with the reference scanner
+    or belongs to a doomed position. -/
+def NumberOK (bs : List Nat) : Prop :=
+  ∀ start c, start < bs.length → bs[start]? = some c → isNumStart c = true →
+    ∃ r, (NumAgrees start bs.length (Number.scanNumber bs start) r ∨
+          ∃ t, Number.scanToken (bs.drop start) = some t ∧ 0 < t.len ∧ Doomed bs (start + t.len) ∧
+            NumDoomedOut start t.len r) ∧
+      ∀ pad buf, pad.length = 61 → (∀ x ∈ pad, x < 256) → BufAt bs pad buf start →
+        numOut (Sonic.Model.Number.parseNumber buf bs.length start) = r
+
+theorem numberOK_of_correct {bs : List Nat} (h : NumberCorrectOn bs) : NumberOK bs := by
+  intro start c h1 h2 h3
+  obtain ⟨r, hagr, hr⟩ := h start c h1 h2 h3
+  exact ⟨r, Or.inl hagr, hr⟩
+
+theorem Doomed.lt {bs : List Nat} {next : Nat} (h : Doomed bs next) : next < bs.length := by
+  obtain ⟨d, hd, _⟩ := h
+  exact (List.getElem?_eq_some_iff.mp hd).1
+
+theorem Doomed.notWs {bs : List Nat} {next : Nat} (h : Doomed bs next) :
+    ∃ d, bs[next]? = some d ∧ isSpace d = false ∧ d ≠ 0x2C ∧ d ≠ 0x5D ∧ d ≠ 0x7D ∧ d ≠ 0x78 := by
+  obtain ⟨d, hd, hc⟩ := h
+  refine ⟨d, hd, ?_⟩
+  rcases hc with rfl | hc
+  · decide
+  · unfold Number.isDigit at hc
+    simp only [Bool.and_eq_true, decide_eq_true_eq] at hc
+    refine ⟨?_, by omega, by omega, by omega, by omega⟩
+    unfold isSpace
+    simp only [Bool.or_eq_false_iff, beq_eq_false_iff_ne, ne_eq]
+    omega
+
+/-- what the parser proofs use of an outcome: where an accepted number ends, which codes an error has -/
+def NumShape (start len : Nat) : NumOut → Prop
+  | .ok _ next => start < next ∧ next ≤ len
+  | .err code _ => code = 3 ∨ code = 2
+
+theorem NumberOK.shape {bs : List Nat} (h : NumberOK bs) {start c : Nat} (h1 : start < bs.length)
+    (h2 : bs[start]? = some c) (h3 : isNumStart c = true) :
+    ∃ r, NumShape start bs.length r ∧
+      ∀ pad buf, pad.length = 61 → (∀ x ∈ pad, x < 256) → BufAt bs pad buf start →
+        numOut (Sonic.Model.Number.parseNumber buf bs.length start) = r := by
+  obtain ⟨r, hcase, hr⟩ := h start c h1 h2 h3
+  refine ⟨r, ?_, hr⟩
+  rcases hcase with hagr | ⟨t, ht, hpos, hd, hout⟩
+  · cases r with
+    | ok v next =>
+      cases hs : Number.scanNumber bs start with
+      | ok v' n' => rw [hs] at hagr; obtain ⟨_, e2, e3, e4⟩ := hagr; subst e2; exact ⟨e3, e4⟩
+      | infinity _ => rw [hs] at hagr; exact hagr.elim
+      | malformed => rw [hs] at hagr; exact hagr.elim
+    | err code pos =>
+      cases hs : Number.scanNumber bs start with
+      | ok v' n' => rw [hs] at hagr; exact hagr.elim
+      | infinity _ => rw [hs] at hagr; exact Or.inl hagr
+      | malformed => rw [hs] at hagr; exact Or.inr hagr
+  · have := hd.lt
+    cases r with
+    | ok v next =>
+      have hn : next = start + t.len := hout
+      exact ⟨by omega, by omega⟩
+    | err code pos => exact hout
 
 end Sonic.Proofs.Parse
